@@ -257,7 +257,8 @@ func (d *TSDDecoder) EndTime() uint16 {
 
 // Next returns if has next slot data
 func (d *TSDDecoder) Next() bool {
-	if d.startTime+d.idx <= d.endTime {
+	// compare as int, uint16 addition wraps when the block ends at the last slot(65535)
+	if int(d.startTime)+int(d.idx) <= int(d.endTime) {
 		d.idx++
 		return true
 	}
